@@ -39,14 +39,6 @@ def run(chk):
 DOM_CTOR = re.compile(r'^(cssutils\.)?(css|stylesheets)\.[A-Z]\w+$')
 
 
-def _is_switch_on(call):
-    return call_name(call) == 'self.__parseSetting' and call.args and const(call.args[0]) is True
-
-
-def _is_switch_off(call):
-    return call_name(call) == 'self.__parseSetting' and call.args and const(call.args[0]) is False
-
-
 def dom_nodes(g):
     """CFG nodes that construct or drive DOM objects."""
     bound = set()
@@ -69,13 +61,17 @@ def dom_nodes(g):
 
 def r01a(chk, rid='R01.a'):
     chk.rule(rid, 'log-mode window: in CSSParser.parseString/parseStyle every path from entry to a statement that constructs or drives a DOM object passes __parseSetting(True); parseFile/parseUrl touch the DOM only through parseString')
+    from .c12 import FLAG, switch_effect, switch_methods
+
+    switches = switch_methods(chk.repo.mod(PARSE))
     for name in ('parseString', 'parseStyle'):
         fn = chk.repo.fn(PARSE, f'CSSParser.{name}')
         g = cfgmod.CFG(fn)
         targets = dom_nodes(g)
         if not targets:
             raise AnalysisError(f'CSSParser.{name}: no DOM construction found')
-        on = lambda n: any(_is_switch_on(c) for c in cfgmod.calls_at(n))  # noqa: E731
+        on = lambda n: any(switch_effect(switches, c) == 'on' for c in cfgmod.calls_at(n)) or (  # noqa: E731
+            n.kind == 'stmt' and isinstance(n.stmt, ast.Assign) and text(n.stmt.targets[0]) == FLAG and '__parseRaising' in text(n.stmt.value))
         if not any(on(n) for n in g.nodes):
             chk.ob(rid, PARSE, f'CSSParser.{name}', 'switches to the parse error mode', False, '__parseSetting(True) is never called')
             continue
@@ -93,10 +89,11 @@ def r01a(chk, rid='R01.a'):
         calls = [c for n in g.nodes for c in cfgmod.calls_at(n) if call_name(c) == 'self.parseString']
         chk.ob(rid, PARSE, f'CSSParser.{name}', 'delegates to self.parseString', bool(calls), 'no call of parseString')
     # the switch itself
-    fn = chk.repo.fn(PARSE, 'CSSParser.__parseSetting')
-    stores = [text(n) for n in ast.walk(fn) if isinstance(n, ast.Assign)]
-    chk.ob(rid, PARSE, 'CSSParser.__parseSetting', 'parse=True selects the parser\'s own raising flag',
-           any('raiseExceptions = self.__parseRaising' in s for s in stores), str(stores))
+    ons = [(nm, st) for nm, (f, summ) in switches.items() for st in ast.walk(f) if isinstance(st, ast.Assign) and text(st.targets[0]) == FLAG and '__parseRaising' in text(st.value)]
+    if not ons:
+        raise AnalysisError('CSSParser: no store of the parse mode found')
+    for nm, st in ons:
+        chk.ob(rid, PARSE, f'CSSParser.{nm}', "switching on selects the parser's own raising flag", text(st.value) == 'self.__parseRaising', text(st))
     init = chk.repo.fn(PARSE, 'CSSParser.__init__')
     dflt = [text(n) for n in ast.walk(init) if isinstance(n, ast.Assign) and '__parseRaising' in text(n.targets[0])]
     chk.ob(rid, PARSE, 'CSSParser.__init__', 'default parse mode is non-raising', 'self.__parseRaising = False' in dflt, str(dflt))
